@@ -21,8 +21,11 @@ type G struct {
 	Funcs   []string // callee pool
 	cn      int      // comment counter
 	Comment bool     // sprinkle comments
-	lbl     int
-	fr      int
+	// NoRelayoutComment: re-laid-out repeated fillers only get doubled blanks, never a trailing comment (for checks
+	// that compare runs with each other and would see the known comment finding as a difference between layouts)
+	NoRelayoutComment bool
+	lbl               int
+	fr                int
 }
 
 // NewG returns a generator with default pools.
